@@ -241,7 +241,7 @@ def event_correspondence(ctx, H, E):
     html_lists = list(exhaustive(html_tags6, L))
     epub_lists = (list(exhaustive(epub_tags6, 3)) if L == 3 else
                   list(exhaustive(epub_tags8, 3)) + [l for l in exhaustive(epub_tags6, 4) if len(l) == 4])
-    for _ in range(ctx.n(400, 5000)):
+    for _ in range(ctx.n(250, 5000)):
         html_lists.append(random_events(rng, html_more, rng.randint(4, 24)))
         epub_lists.append(random_events(rng, epub_more, rng.randint(4, 24)))
 
@@ -915,6 +915,25 @@ def text_level(ctx, H, E):
             ctx.finding(key, f"{path}: {why} for generated document", {"path": path, "html_body": body, "why": why,
                                                                          "visible": d.visible, "cells": d.cells, "hidden": d.hidden})
 
+    # long prefixes: the first markup comes only after L characters of comment / white space / plain text (detection windows,
+    # sniffing windows, buffer sizes must not change what is removed)
+    pads = {"comment": lambda L: "<!--[if gte mso 9]><xml>" + "x" * max(0, L - 40) + "</xml><![endif]-->",
+            "whitespace": lambda L: " \n" * (L // 2), "plain-text": lambda L: "lorem ipsum " * (L // 12)}
+    for pk, mkpad in pads.items():
+        reported = set()
+        for L in (100, 1000, 4000, 4096, 4097, 5000, 8192, 8200, 20000, 70000):
+            dd = Doc(rng)
+            bodyp = mkpad(L) + f'<div class="a"><style type="text/css">p {{color: {dd.hid()}}}</style><p class="x">{dd.vis()}</p>' \
+                + dd.any_removable() + f"<p>{dd.vis()}</p><!-- {dd.hid()} --></div>"
+            ctx.case(("text-padded", pk, L), True, kind=f"text-padded-{pk}")
+            bad = evaluate(bodyp, dd)
+            for path, why in bad:
+                fam = family(path, bad)
+                if fam in reported:
+                    continue
+                reported.add(fam)
+                ctx.finding(f"{fam}:after-long-prefix-{pk}", f"{path}: {why} for markup that follows {L} characters of {pk}",
+                            {"path": path, "html_body": bodyp, "why": why, "visible": dd.visible, "hidden": dd.hidden, "prefix": L})
     # documents at scale: d open (unclosed / properly nested) elements or d siblings, then a removable element -------------
     shapes = {
         "unclosed": lambda d, payload: "<p>vis1z</p>" + "".join(f"<{('p', 'li', 'font')[i % 3]}>lvl\n" for i in range(d)) + f"vis2z {payload} vis3z",
@@ -968,6 +987,16 @@ def charset_docs(rng, n_random):
         if decl == "bom":
             raw = {"utf-8": b"\xef\xbb\xbf", "utf-16-le": b"\xff\xfe", "utf-16-be": b"\xfe\xff"}[enc] + raw
         out.append(("truthful", f"html:charset-truthful:{enc}:{decl}", raw, ["vis1z", "vis2z", "vis3z"], ["hid1z", "hid2z", "hid3z"], marker))
+        if decl in ("meta", "http-equiv", "meta-unquoted"):
+            # markup that may legitimately stand in front of the declaration: void elements (also the removable void one),
+            # closed removed elements, comments - the declaration after them still decides
+            fronts = ['<embed src="bg.mid" autostart="true">', "<img src=x>", "<br>", '<link rel="x" href="y">', "<embed src=x/>",
+                      "<script>var a;</script>", "<!-- c -->", "<noscript><img src=p.gif></noscript>", '<object data="x"></object>',
+                      '<base href="http://e/">']
+            for fr in fronts:
+                doc2 = doc.replace("<head>", "<head>" + fr, 1) if rng.random() < 0.5 else fr + doc
+                out.append(("truthful-after-markup", f"html:charset-truthful-after-markup:{fr.split()[0].strip('<>/')}", doc2.encode(enc),
+                            ["vis1z", "vis2z", "vis3z"], ["hid1z", "hid2z", "hid3z"], marker))
     # B. a declaration inside removed markup must decide nothing
     containers = {
         "comment": "<!-- {m} -->", "comment-multi": "<!--\n old head:\n {m}\n-->", "script-string": "<script>var h = '{m}';</script>",
@@ -1086,6 +1115,9 @@ def sniff_correspondence(ctx, H):
               b"<script>", b"</script>", b"<SCRIPT ", b"</Script >", b"</script\n>", b"<scripts>", b"<script", b"<style>", b"</style>", b"<noscript>",
               b"</noscript>", b"<iframe ", b"</iframe>", b"<object>", b"</object x>", b"<applet>", b"</applet>", b"</", b"<",
               b"<p>t</p>", b"=", b"charset", b"<metadata>", b"<m", b"\xe9", b"\xff", b";", b" name=\"a\"", b"_", b"<!-", b"<!--->", b"\n"]
+    # every tag name the tables know (void ones too) may stand in front of the declaration
+    for nm in sorted(set(H.REMOVE_TAGS) | set(H._VOID_TAGS) | {"title", "head", "html", "body", "div"}):
+        pieces += [b"<" + nm.encode() + b">", b"<" + nm.encode() + b" src=x>", b"</" + nm.encode() + b">"]
     heads = [b"", b"<meta charset=utf-8>", b"<metacharset=utf-8>", b"<meta charset=>", b"<meta charset=\"\">", b"<meta charset= x>",
              b"<meta charset=a charset=b>", b"<meta charset=a charset= >", b"<meta a>charset=x", b"<meta <meta charset='k'>",
              b"<meta charset=\"a'b>", b"\xef\xbb\xbf<meta charset=latin-1>", b"\xff\xfe<\x00", b"\xfe\xff\x00<", b"\xef\xbb", b"<meta charset=caf\xe9>",
@@ -1098,9 +1130,19 @@ def sniff_correspondence(ctx, H):
              b"<!--" + b"x" * 8190 + b"--><meta charset=latin-1>", b"x" * 8186 + b"<script><meta charset=latin-1>"]
     if ctx.tier == "quick":
         heads = [h for h in heads if len(h) < 4000] + [h for h in heads if len(h) >= 4000][1:3]
-    for _ in range(ctx.n(300, 5000)):
+    for _ in range(ctx.n(200, 5000)):
         heads.append(b"".join(rng.choice(pieces) for _ in range(rng.randint(1, 10))))
+    for nm in sorted(set(H.REMOVE_TAGS) | set(H._VOID_TAGS)):
+        heads.append(b"<" + nm.encode() + b" src=x><meta charset=latin-1>")
+        heads.append(b"<html><head><" + nm.encode() + b"><meta http-equiv=\"Content-Type\" content=\"text/html; charset=koi8-r\"></head>")
     skip_re = getattr(H, "_RE_SNIFF_SKIP_BYTES", None)
+    import re as _re
+    want_skip = rb"<!--.*?(?:-->|\Z)|<(script|style|noscript|iframe|object|applet)\b.*?(?:</\1\s*>|\Z)"
+    want_meta = rb'<meta[^>]+charset=["\']?([^"\'\s>]+)'
+    ctx.obligation("inventory:_RE_SNIFF_SKIP_BYTES and _RE_CHARSET_ATTR_BYTES are the regexes modelled in C17/Sniff.v (pattern text and flags)",
+                   skip_re is not None and skip_re.pattern == want_skip and skip_re.flags == (_re.IGNORECASE | _re.DOTALL)
+                   and H._RE_CHARSET_ATTR_BYTES.pattern == want_meta and H._RE_CHARSET_ATTR_BYTES.flags == _re.IGNORECASE,
+                   f"skip: {getattr(skip_re, 'pattern', None)!r} flags {getattr(skip_re, 'flags', None)}; meta: {H._RE_CHARSET_ATTR_BYTES.pattern!r}")
     cases, info = [], []
     bl = lambda b: "[" + ";".join(str(x) for x in b) + "]%N"
     for raw in heads:
@@ -1788,7 +1830,8 @@ def run(ctx):
         "C17_remove_sets_agree"])
 
     ctx.prove("C17/SniffProps.v", ["C17/SniffProofs.vo"], expected=[
-        "C17_sniff_comment_inert", "C17_sniff_unterminated_comment_inert", "C17_sniff_removed_element_inert_partial",
+        "C17_sniff_comment_inert", "C17_sniff_unterminated_comment_inert", "C17_sniff_removed_element_inert",
+        "C17_sniff_unterminated_element_inert",
         "C17_sniff_hypotheses_nonvacuous", "C17_sniff_utf7_never", "C17_sniff_bom_decides", "C17_sniff_beyond_window_inert",
         "C17_sniff_prefix_removed_markup_inert_refuted"])
     reuse_facts(ctx)
@@ -1821,6 +1864,8 @@ META = {
                   "exhaustive/random differential runs comparing the complete object state / the regex match and the decode call); "
                   "html.parser tokenizer, codecs and the renderers are oracles (tokenizer configuration, call protocol and table "
                   "inventory are fail-closed obligations). Cannot be modelled: third-party MIME/zip/msg_parser behaviour, codec tables. "
-                  "Encoding decision: comments proved inert at full strength inside the window, the six removed elements under "
-                  "no_lt_slash (gap: bodies with other end-tag openers, upper-case names, elements open at the window end - differential only).",
+                  "Encoding decision: comments and the six removed elements (any letter case, any body whose first same-name end tag is "
+                  "the closing one, also when left open to the end of the window) proved inert at full strength inside the window. "
+                  "Still outside the model: the renderer (_process_node / _format_table_as_text / extract clean-up: regex whitespace, "
+                  "str.strip/ljust) - universally quantified in the theorems, sampled by the text-level oracle.",
 }
